@@ -170,6 +170,20 @@ func (t *dateWithUTCTime) UnmarshalText(b []byte) error {
 	return nil
 }
 
+// MarshalXMLAttr omits the attribute of a zero time: struct-kinded attributes
+// are not subject to omitempty, and an open bound of a time-range is expressed
+// by the absence of start or end.
+func (t dateWithUTCTime) MarshalXMLAttr(name xml.Name) (xml.Attr, error) {
+	if time.Time(t).IsZero() {
+		return xml.Attr{}, nil
+	}
+	b, err := t.MarshalText()
+	if err != nil {
+		return xml.Attr{}, err
+	}
+	return xml.Attr{Name: name, Value: string(b)}, nil
+}
+
 func (t *dateWithUTCTime) MarshalText() ([]byte, error) {
 	s := time.Time(*t).UTC().Format(dateWithUTCTimeLayout)
 	return []byte(s), nil
